@@ -15,6 +15,7 @@ import (
 	"github.com/modernizing/coca/pkg/application/concept"
 	"github.com/modernizing/coca/pkg/application/count"
 	"github.com/modernizing/coca/pkg/application/evaluate"
+	"github.com/modernizing/coca/pkg/infrastructure/string_helper"
 	"github.com/modernizing/coca/pkg/application/tbs"
 	"github.com/modernizing/coca/pkg/domain/bs_domain"
 	"github.com/modernizing/coca/pkg/domain/core_domain"
@@ -162,15 +163,11 @@ func init() {
 	})
 }
 
+// rows in the order `coca count` / `coca concept` print them
 func sxCounts(m map[string]int) Sx {
-	keys := make([]string, 0, len(m))
-	for k := range m {
-		keys = append(keys, k)
-	}
-	sort.Strings(keys)
 	out := []Sx{}
-	for _, k := range keys {
-		out = append(out, L(A(k), N(m[k])))
+	for _, p := range string_helper.SortWord(m) {
+		out = append(out, L(A(p.Key), N(p.Value)))
 	}
 	return L(out...)
 }
